@@ -275,7 +275,7 @@ def analyse_unit(name, canary=False, rlimit=None, seed=None):
                     break
     res["overlay_props"] = overlay_props
     # ---- run verus
-    vr = verus_run(meta["path"], rlimit=rlimit, seed=seed)
+    vr = verus_run(meta["path"], rlimit=rlimit or unit.get("rlimit"), seed=seed)
     res["wall_s"] = vr["wall_s"]
     res["cmd"] = vr["cmd"]
     res["cached"] = vr["cached"]
